@@ -356,7 +356,7 @@ pub struct RunState<'a, M: MachineIO<MachineStack>> {
     /// Execution Context (actually used for more than Commands)
     ctx: CommandContext,
     // Cursors for `QueryStart` results
-    query_iter_stack: Vec<M::QueryIterator>,
+    query_iter_stack: Vec<(Fact, M::QueryIterator)>,
     #[cfg(feature = "bench")]
     stopwatch: Stopwatch,
 }
@@ -949,20 +949,30 @@ where
             Instruction::QueryStart => {
                 let fact: Fact = self.ipop()?;
                 self.validate_fact_literal(&fact)?;
-                let iter = self.io.fact_query(fact.name, fact.keys)?;
-                self.query_iter_stack.push(iter);
+                let iter = self
+                    .io
+                    .fact_query(fact.name.clone(), fact.keys.clone())?;
+                // Keep the literal: `QueryNext` filters on its value fields.
+                self.query_iter_stack.push((fact, iter));
             }
             Instruction::QueryNext(ident) => {
                 // Fetch next fact from iterator
-                let iter = self.query_iter_stack.last_mut().ok_or_else(|| {
+                let (query, iter) = self.query_iter_stack.last_mut().ok_or_else(|| {
                     MachineError::from_position(
                         MachineErrorType::BadState("QueryNext: no results"),
                         self.pc,
                         self.machine.codemap.as_ref(),
                     )
                 })?;
+                // Skip facts that do not match the literal's value fields (the
+                // storage query only selects on the key prefix), like `Query`
+                // and `FactCount` do.
+                let next = iter.find(|r| match r {
+                    Ok((k, v)) => fact_match(query, k, v),
+                    Err(_) => true,
+                });
                 // Update `as` variable value and push an end-of-results bool.
-                match iter.next() {
+                match next {
                     Some(result) => {
                         let (k, v) = result?;
                         let mut fields: Vec<KVPair> = vec![];
